@@ -51,7 +51,7 @@ BOUNDS = {
                           271, 275, 359}, BMax=2, MerLons={0, 90, 95}, PoleLons={0, 217, 360}, MaxD=15, NMaskMax=5,
                      TurnMags=TURNMAGS, NScaleMax=9, TileMax=32, Thorough=True,
                      ScaleNs={2 ** 10 - 1, 2 ** 10, 2 ** 10 + 1, 2 ** 16 - 1, 2 ** 16, 2 ** 16 + 1, 2 ** 18 - 1, 2 ** 18,
-                              2 ** 18 + 1, 2 ** 20 - 1, 2 ** 20, 2 ** 20 + 1, 2 ** 21 - 1, 2 ** 21, 2 ** 21 + 5, 3 * 2 ** 20}),
+                              2 ** 18 + 1, 2 ** 20 - 1, 2 ** 20, 2 ** 20 + 1, 2 ** 21 - 1, 2 ** 21, 2 ** 21 + 5}),
 }
 # rows of the many-turn design evaluated per block of pairs (the rows are spread over the blocks)
 TURN_ROWS_PER_BLOCK = {"quick": 4, "thorough": 4}
@@ -78,6 +78,7 @@ V_MORE = [("sphdist", "deg", "deg", 1, 0, 0, 0), ("sphdist", "deg", "deg", 0, -1
 SHAPES = ("scalar", "n1", "n3", "long", "one_vs_n3", "n2x3")     # one_vs_n3: first point python floats, second point arrays;
                                                                   # n2x3: two-dimensional arrays of shape (2, 3)
 BLOCK = 240          # pairs per evaluation block = length of the "long" arrays
+BATCH_ITEMS = 320    # blocks / large calls evaluated and judged together (bounds the memory of the thorough tier)
 
 
 # ---------------------------------------------------------------------------------
@@ -490,7 +491,7 @@ def validate_all(ctx, jobs):
         return [f.result() for f in futs]
 
 
-def judge(ctx, pid, recs, blocks, rejects, cap=6):
+def judge(ctx, pid, recs, blocks, rejects, groups_present, cap=6):
     """TLC judges the records; rejected observations become violations with structural signatures:
     <function>|<clause>|<shapes that fail: anyshape or a list>|<separation classes that fail: anysep or a list>
     (+ |negzero when only the calls with -0.0 coordinates fail); the many-turn evaluations have the coarser
@@ -508,7 +509,6 @@ def judge(ctx, pid, recs, blocks, rejects, cap=6):
                 tl = "manyturns-" + var[1] if is_turn(var) else ""
                 for shape in mem["shapes"]:     # the class of an exception is that of the whole call
                     fails.append((var[0], tl, cl, mem["incall"] or sep_group(pr), shape, var[6], rid, k, mi))
-    groups_present = {sep_group(pid[r["pid"]]) for r in recs}
     shapes_of, seps_of, nz_of = {}, {}, {}
     for fn, tl, cl, sg, shape, nz, rid, k, mi in fails:
         shapes_of.setdefault((fn, tl, cl, sg), set()).add(shape)
@@ -648,12 +648,12 @@ def run(ctx):
     v_gc = V_BASE + V_MORE
     v_rs = V_BASE + (V_MORE if not ctx.quick else [V_MORE[0], V_MORE[3], V_MORE[7]])
     rng = random.Random(ctx.seed)
-    work = []
+    cats = {"scale": [], "gc": [], "rs": [], "turn": []}
     stile = [scale_tile(c, tiles, gpts) for c in scases]
     if max(len(t) for t in stile) >= 4096:
         raise MachineryError("tile too long for the record numbering")
-    for sno in sorted(range(len(scases)), key=lambda k: -scases[k]["n"]):       # longest jobs first
-        work.append(("scale", sno, scases[sno], stile[sno]))
+    for sno in sorted(range(len(scases)), key=lambda k: -scases[k]["n"]):
+        cats["scale"].append(("scale", sno, scases[sno], stile[sno]))
     nblock = 0
     for tag, sub in (("gc", pairs[:ngc]), ("rs", pairs[ngc:]), ("turn", pairs[:ngc])):
         order = list(range(len(sub)))
@@ -665,60 +665,85 @@ def run(ctx):
         toff = rng.randrange(len(v_turn))
         for b in range(nb):
             vs = {"gc": v_gc, "rs": v_rs}.get(tag) or [v_turn[(toff + b * R + t) % len(v_turn)] for t in range(R)]
-            work.append(("block", nblock, ctx.seed * 7919 + nblock, [sub[t] for t in order[b::nb]], vs,
-                         1 if tag == "turn" else 0, tag))
+            cats[tag].append(("block", nblock, ctx.seed * 7919 + nblock, [sub[t] for t in order[b::nb]], vs,
+                              1 if tag == "turn" else 0, tag))
             nblock += 1
-    res = pmap(eval_work, work, chunk=1)
-    gc_recs, rs_recs, turn_recs, sc_recs, blocks, tiles_hex = [], [], [], [], {}, {}
-    for w, (out, aux) in zip(work, res):
-        if w[0] == "scale":
-            sc_recs.extend(out)
-            tiles_hex[w[1]] = aux
-        else:
-            blocks[w[1]] = (w[3], aux, w[4])
-            {"gc": gc_recs, "rs": rs_recs, "turn": turn_recs}[w[6]].extend(out)
-    for rs in (gc_recs, rs_recs, turn_recs, sc_recs):
-        rs.sort(key=lambda r: r["id"])
-    recs = gc_recs + rs_recs
-    for r in recs:
-        ctx.count({"c": r["c"], "eps": pid[r["pid"]].get("eps")})
-    ctx.evaluations += sum(r["evals"] for r in recs) - len(recs)
-    for r in turn_recs:
-        ctx.count({"c": r["c"], "eps": pid[r["pid"]].get("eps"), "turns": sorted({tuple(blocks[r["b"]][2][m["vi"]][3:5])
-                                                                                 for ms in r["members"].values() for m in ms})},
-                  n=r["evals"])
-    for r in sc_recs:
-        ctx.count({"c": r["c"], "eps": r["eps"]}, n=sum(o["cnt"] for o in r["obs"]) + 1)
-    for r in recs[:: max(1, len(recs) // 4)][:4] + turn_recs[:1] + sc_recs[:1]:
-        ctx.sample({"case": r["c"], "eps": r.get("eps", pid.get(r.get("pid"), {}).get("eps")), "observations": r["obs"]})
-    seen_rows = {tuple(blocks[r["b"]][2][m["vi"]]) for r in turn_recs for ms in r["members"].values() for m in ms}
+    # the four kinds of work evenly interleaved (the large calls, which need memory, spread over the run), then
+    # evaluated and judged batch by batch: only the rejected records are kept
+    work = [w for _, _, w in sorted(((j + 0.5) / len(ws), ci, w) for ci, ws in enumerate(cats.values())
+                                    for j, w in enumerate(ws))]
+    nbatch = max(1, -(-len(work) // BATCH_ITEMS))
+    bsize = -(-len(work) // nbatch)
+    names = {"gc": "great-circle lattice evaluations", "rs": "rational-sphere evaluations",
+             "turn": "many-turn evaluations", "scale": "large array calls per tile position"}
+    kept = {c: [] for c in names}                 # rejected records, with the evaluations behind them
+    rejects = {c: {} for c in names}
+    accepted = {c: None for c in names}           # one accepted record each for the binding self-test
+    nrec = {c: 0 for c in names}
+    blocks, tiles_hex, seen_rows, classes = {}, {}, set(), set()
+    shape_dep = bitdiff = 0
+    wanted = {"gc": lambda r: any(o["on"] for o in r["obs"]), "rs": lambda r: any(o["on"] for o in r["obs"]), "turn": lambda r: any(o["sh"] and o["on"] for o in r["obs"]),
+              "scale": lambda r: len(r["obs"]) == 1}
+    for bi in range(nbatch):
+        batch = work[bi * bsize:(bi + 1) * bsize]
+        res = pmap(eval_work, batch, chunk=1)
+        by = {c: [] for c in names}
+        for w, (out, aux) in zip(batch, res):
+            if w[0] == "scale":
+                by["scale"].extend(out)
+                tiles_hex[w[1]] = aux
+            else:
+                blocks[w[1]] = (w[3], aux, w[4])
+                by[w[6]].extend(out)
+        del res
+        for c in names:
+            by[c].sort(key=lambda r: r["id"])
+        jobs = [c for c in names if by[c]]
+        rj = validate_all(ctx, [(by[c], "judge %s (SphereTrace)%s" % (names[c], " [batch %d/%d]" % (bi + 1, nbatch)
+                                                                      if nbatch > 1 else "")) for c in jobs])
+        for c, rej in zip(jobs, rj):
+            rejects[c].update(rej)
+            nrec[c] += len(by[c])
+            for r in by[c]:
+                if c == "scale":
+                    ctx.count({"c": r["c"], "eps": r["eps"]}, n=sum(o["cnt"] for o in r["obs"]) + 1)
+                    bitdiff += 1 if r["bitdiff"] else 0
+                elif c == "turn":
+                    rows = {tuple(blocks[r["b"]][2][m["vi"]]) for ms in r["members"].values() for m in ms}
+                    seen_rows |= rows
+                    classes |= {o["tc"] for o in r["obs"]}
+                    ctx.count({"c": r["c"], "eps": pid[r["pid"]].get("eps"), "turns": sorted(v[3:5] for v in rows)}, n=r["evals"])
+                else:
+                    ctx.count({"c": r["c"], "eps": pid[r["pid"]].get("eps")}, n=r["evals"])
+                    shape_dep += r["shape_dependent"]
+                if r["id"] in rej:
+                    kept[c].append(r)
+                elif accepted[c] is None and wanted[c](r):
+                    accepted[c] = r
+            for r in by[c][:: max(1, len(by[c]) // 2)][:2 if c in ("gc", "rs") else 1]:
+                if bi == 0:
+                    ctx.sample({"case": r["c"], "eps": r.get("eps", pid.get(r.get("pid"), {}).get("eps")), "observations": r["obs"]})
     if len(seen_rows) < len(v_turn):
         raise MachineryError("%d of the %d many-turn rows were never evaluated" % (len(v_turn) - len(seen_rows), len(v_turn)))
-    classes = {o["tc"] for r in turn_recs for o in r["obs"]}
     if not {"exact", "equator", "pole", "samelon"} <= classes:
         raise MachineryError("many-turn classes evaluated: %s" % sorted(classes))
-    # 4. TLC judges (code -> spec)
-    rj = validate_all(ctx, [(gc_recs, "judge great-circle lattice evaluations (SphereTrace)"),
-                            (rs_recs, "judge rational-sphere evaluations (SphereTrace)"),
-                            (turn_recs, "judge many-turn evaluations (SphereTrace)"),
-                            (sc_recs, "judge large array calls per tile position (SphereTrace)")])
-    rej1, nf1 = judge(ctx, pid, gc_recs, blocks, rj[0])
-    rej2, nf2 = judge(ctx, pid, rs_recs, blocks, rj[1])
-    rej3, nf3 = judge(ctx, pid, turn_recs, blocks, rj[2])
-    rej4, nf4 = judge_scale(ctx, sc_recs, scases, tiles_hex, rj[3])
+    # 4. what TLC rejected (code -> spec) becomes violations
+    present = {"gc": {sep_group(p) for p in pairs[:ngc]}, "rs": {sep_group(p) for p in pairs[ngc:]}}
+    rej1, nf1 = judge(ctx, pid, kept["gc"], blocks, rejects["gc"], present["gc"])
+    rej2, nf2 = judge(ctx, pid, kept["rs"], blocks, rejects["rs"], present["rs"])
+    rej3, nf3 = judge(ctx, pid, kept["turn"], blocks, rejects["turn"], present["gc"])
+    rej4, nf4 = judge_scale(ctx, kept["scale"], scases, tiles_hex, rejects["scale"])
 
     # 5. binding self-test: a corrupted observation must be rejected, its untouched twin accepted
-    def first_good(rs, rej, want=lambda r, o: True):
-        for r in rs:
-            if r["id"] not in rej:
-                for o in r["obs"]:
-                    if o["on"] and want(r, o):
-                        return {"c": r["c"], "o": o, "real": True, "obs": r["obs"]}
-        o = dict(rs[0]["obs"][0], err="none", fin=True, rng=True, on=True, zero=False)
-        return {"c": rs[0]["c"], "o": o, "real": False, "obs": [o]}     # nothing accepted on this tree: synthetic twin
-    probe, good = [], [first_good(gc_recs, rej1), first_good(rs_recs, rej2),
-                       first_good(turn_recs, rej3, lambda r, o: o["sh"]),
-                       first_good(sc_recs, rej4, lambda r, o: len(r["obs"]) == 1)]
+    def first_good(c):
+        r = accepted[c]
+        if r is not None:
+            o = [o for o in r["obs"] if o["on"] and (c != "turn" or o["sh"])][0]
+            return {"c": r["c"], "o": o, "real": True, "obs": r["obs"]}
+        r = kept[c][0]
+        o = dict(r["obs"][0], err="none", fin=True, rng=True, on=True, zero=False)
+        return {"c": r["c"], "o": o, "real": False, "obs": [o]}     # nothing accepted on this tree: synthetic twin
+    probe, good = [], [first_good(c) for c in ("gc", "rs", "turn", "scale")]
     for n, g in enumerate(good):
         bad = dict(g["o"])
         if "a" in bad and bad.get("dd") is None:
@@ -739,7 +764,6 @@ def run(ctx):
     if (not all(i in rej for i in (1, 3, 5, 7)) or any(g["real"] and 2 * n + 2 in rej for n, g in enumerate(good))
             or "bad_turn_class" not in clauses.get(9, []) or "scale_complete" not in clauses.get(10, [])):
         raise MachineryError("binding self-test failed: %s" % rej)
-    shape_dep = sum(r["shape_dependent"] for r in recs)
     ctx.rule = ("every unordered pair (incl. p=q) of the %d great-circle-lattice points (positions %s deg x eps multiples "
                 "-%d..%d on the equator and the meridian circles %s, poles also at longitudes %s) that lie on a common "
                 "lattice circle, x eps in {1e-12,1e-9,1e-6,1e-3,2^-44} deg%s; every unordered pair of the %d rational-sphere "
@@ -757,11 +781,11 @@ def run(ctx):
     ctx.exhaustive = True
     ctx.note(bounds={k: sorted(v) if isinstance(v, set) else v for k, v in B.items()}, gc_cases=ngc,
              rs_pairs=len(pairs) - ngc, variants_gc=len(v_gc), variants_rs=len(v_rs), many_turn_rows=len(v_turn),
-             many_turn_records=len(turn_recs), large_calls=len(scases), large_call_records=len(sc_recs),
+             many_turn_records=nrec["turn"], large_calls=len(scases), large_call_records=nrec["scale"],
              large_call_elements=sum(c["n"] for c in scases),
              rejected_records=len(rej1) + len(rej2) + len(rej3) + len(rej4),
              failing_evaluations=nf1 + nf2 + nf3 + nf4, informational_shape_dependent_results=shape_dep,
-             informational_large_call_positions_with_bit_differences=sum(1 for r in sc_recs if r["bitdiff"]),
+             informational_large_call_positions_with_bit_differences=bitdiff,
              tolerances_deg={"sphdist": "1e-11", "gcirc": "2e-6", "input_rounding_allowance": "2e-13"})
     ctx.trusted_base += ["fractions.Fraction / decimal (60 digits) arithmetic of vh.spherelat (self-validated per run: pi, "
                          "sin/cos series, exact_angle_deg anchors)",
